@@ -699,5 +699,30 @@ func forSpecials() []model.Stmt {
 	out = append(out, model.For{Init: &model.Assign{Name: "i", E: lit(0)}, Cond: model.Binary{Op: "<", L: i, R: lit(3)},
 		Post: model.Print{E: model.Postfix{Op: "++", X: i}}, Body: []model.Stmt{model.Continue{}, model.Text{S: "[x]"}}, Else: []model.Stmt{model.Text{S: " never"}}})
 	out = append(out, model.Each{Var: "v", Arr: intArr(1, 2), Body: []model.Stmt{model.Continue{}, model.Text{S: "[x]"}}, Else: []model.Stmt{model.Text{S: " never"}}})
+	// a bare ternary as condition, as start value and as step
+	nv3 := model.Var{Name: "n"}
+	for _, c := range []model.Expr{nv3, model.Binary{Op: "<", L: nv3, R: lit(0)}} {
+		out = append(out, model.For{Init: &model.Assign{Name: "i", E: lit(0)}, Cond: model.Ternary{C: c, A: model.Binary{Op: "<", L: i, R: lit(3)}, B: model.Binary{Op: "<", L: i, R: lit(1)}},
+			Post: model.Print{E: model.Postfix{Op: "++", X: i}}, Body: body, Else: []model.Stmt{model.Text{S: " never"}}})
+		out = append(out, model.For{Init: &model.Assign{Name: "i", E: model.Ternary{C: c, A: lit(1), B: lit(4)}}, Cond: model.Ternary{C: model.Binary{Op: "<", L: i, R: lit(6)}, A: model.Lit{V: model.Bool(true)}, B: model.Lit{V: model.Bool(false)}},
+			Post: model.Assign{Name: "i", E: model.Ternary{C: c, A: model.Binary{Op: "+", L: i, R: lit(2)}, B: model.Binary{Op: "+", L: i, R: lit(1)}}}, Body: body})
+	}
+	// bounds and counters further apart than 2^63
+	const maxI, half = int64(9223372036854775807), int64(4611686018427387904)
+	for _, cmp := range []string{">", ">="} {
+		out = append(out, model.For{Init: &model.Assign{Name: "i", E: lit(maxI)}, Cond: model.Binary{Op: cmp, L: i, R: lit(-2)},
+			Post: model.Assign{Name: "i", E: model.Binary{Op: "-", L: i, R: lit(half)}}, Body: body, Else: []model.Stmt{model.Text{S: " never"}}})
+		out = append(out, model.For{Init: &model.Assign{Name: "i", E: lit(-2)}, Cond: model.Binary{Op: cmp, L: i, R: lit(maxI)},
+			Post: model.Print{E: model.Postfix{Op: "++", X: i}}, Body: body, Else: []model.Stmt{model.Text{S: " never"}}})
+	}
+	for _, cmp := range []string{"<", "<="} {
+		out = append(out, model.For{Init: &model.Assign{Name: "i", E: lit(-maxI)}, Cond: model.Binary{Op: cmp, L: i, R: lit(2)},
+			Post: model.Assign{Name: "i", E: model.Binary{Op: "+", L: i, R: lit(half)}}, Body: body, Else: []model.Stmt{model.Text{S: " never"}}})
+		out = append(out, model.For{Init: &model.Assign{Name: "i", E: lit(2)}, Cond: model.Binary{Op: cmp, L: i, R: lit(-maxI)},
+			Post: model.Print{E: model.Postfix{Op: "++", X: i}}, Body: body, Else: []model.Stmt{model.Text{S: " never"}}})
+		far := model.ArrLit{Elems: []model.Expr{lit(maxI), lit(1), lit(-maxI), lit(-6)}}
+		out = append(out, model.Each{Var: "v", Arr: far, Body: []model.Stmt{model.ContinueIf{E: model.Binary{Op: cmp, L: model.Var{Name: "v"}, R: lit(-5)}}, model.Text{S: "["}, model.Print{E: model.Var{Name: "v"}}, model.Text{S: "]"}}})
+		out = append(out, model.Each{Var: "v", Arr: far, Body: []model.Stmt{model.Text{S: "["}, model.Print{E: model.Var{Name: "v"}}, model.Text{S: "]"}, model.BreakIf{E: model.Binary{Op: cmp, L: lit(-5), R: model.Var{Name: "v"}}}}})
+	}
 	return out
 }
